@@ -274,7 +274,7 @@ Lemma scan_unbalanced : forall s ts lp q,
   (q = true \/ lp <> 0%Z) -> exists m, parse_line tbl s = LineErr m.
 Proof.
   intros s ts lp q H Hbad. unfold parse_line.
-  destruct (take_lineno _ 0%Z) as [n l2] eqn:E. simpl in H. rewrite H.
+  destruct (take_lineno _ 0%Z) as [n l2] eqn:E. cbn [snd] in H. rewrite H.
   destruct q; [eexists; reflexivity|]. destruct Hbad as [Hq|Hlp]; [discriminate|].
   destruct (0 <? lp)%Z eqn:E1; [eexists; reflexivity|].
   destruct (lp <? 0)%Z eqn:E2; [eexists; reflexivity|].
